@@ -946,6 +946,9 @@ m("c16-claim-rewards-unbounded", "C16", "precompiles/distribution/tx.go",
 m("c16-panicking-decoder", "C16", "precompiles/common/types.go",
   "\taccAddr, err := sdk.AccAddressFromBech32(addr)\n\tif err != nil {\n\t\treturn res, err\n\t}\n\treturn common.BytesToAddress(accAddr), nil\n", "\treturn common.BytesToAddress(sdk.MustAccAddressFromBech32(addr)), nil\n",
   "panicking-decoder", "positive control of the expected-zero rule: a Must…Bech32 decoder in precompile code")
+m("c10-escrow-not-bracketed", "C10", "x/erc20/keeper/msg_server.go",
+  "\tif expEscrow := big.NewInt(0).Sub(escrowToken, tokens); escrowTokenAfter.Cmp(expEscrow) != 0 {", "\tif expEscrow := big.NewInt(0).Sub(escrowToken, tokens); escrowTokenAfter.Cmp(expEscrow) > 0 {",
+  "escrow-balance-check", "the escrow comparison only catches an escrow that paid too little")
 for prop in ("C16", "C07"):
     m("c%s-gas-meter-without-precharge" % prop[1:], prop, "precompiles/common/precompile.go",
       "sdk.NewGasMeter(initialGas + contract.Gas)", "sdk.NewGasMeter(contract.Gas)",
